@@ -160,7 +160,7 @@ def char_bits(rt):
 
 
 # ------------------------------------------------------------------ the encoder
-def enc(mod, t, v, out):
+def enc(mod, t, v, out, ch=ref_ber.CANON):
     rt = mod.resolve(t)
     k = rt.kind
     if k == "BOOLEAN":
@@ -211,16 +211,16 @@ def enc(mod, t, v, out):
         b = ref_ber.oid_content(v, k == "RELOID")
         put_length_unconstrained_items(out, len(b), lambda s, c: out.put_bytes(b[s:s + c]))
     elif k == "SEQUENCE":
-        enc_sequence(mod, rt, v, out)
+        enc_sequence(mod, rt, v, out, ch)
     elif k == "SET":
         raise RefExcluded("SET (asn1c has no PER codec for it)")
     elif k == "CHOICE":
-        enc_choice(mod, rt, v, out)
+        enc_choice(mod, rt, v, out, ch)
     elif k in ("SEQOF", "SETOF"):
         parts = []
         for x in v:
             o = Bits()
-            enc(mod, rt.elem, x, o)
+            enc(mod, rt.elem, x, o, ch)
             parts.append(o)
         if k == "SETOF" and len(parts) > 1:
             # canonical PER (X.691 §22? via X.690 §11.6 analogue): sort by encodings padded to octets
@@ -229,6 +229,8 @@ def enc(mod, t, v, out):
                 raise RefExcluded("SET OF elements equal after padding")
             mx = max(len(o.to_bytes()) for o in parts)
             parts = sorted(parts, key=lambda o: o.to_bytes() + b"\x00" * (mx - len(o.to_bytes())))
+            if ch.pick("setof-permute", 2) == 1:
+                parts = ref_ber._permute(parts, ch)      # BASIC-PER: any order is a valid encoding
 
         def emit(s, c):
             for o in parts[s:s + c]:
@@ -271,7 +273,7 @@ def enc_integer(rt, v, out):
         put_unconstrained_int(out, v)
 
 
-def enc_sequence(mod, rt, v, out):
+def enc_sequence(mod, rt, v, out, ch=ref_ber.CANON):
     root = [m for m in rt.members if not m.ext]
     adds = [m for m in rt.members if m.ext]
 
@@ -279,8 +281,11 @@ def enc_sequence(mod, rt, v, out):
         if m.name not in v:
             return False
         if m.has_default and v[m.name] == m.default and type(v[m.name]) == type(m.default):
-            return False        # canonical: a DEFAULT value is never sent (§19.5)
+            # canonical: a DEFAULT value is never sent (§19.5); BASIC-PER leaves it to the sender
+            return ch.pick("default-present", 3) == 1
         return True
+    pres = {m.name: present(m) for m in rt.members}
+    present = lambda m: pres[m.name]
     adds_present = [present(m) for m in adds]
     if rt.ext:
         out.put(1 if any(adds_present) else 0, 1)
@@ -291,7 +296,7 @@ def enc_sequence(mod, rt, v, out):
         if m.optional or m.has_default:
             if not present(m):
                 continue
-        enc(mod, m.type, v[m.name], out)
+        enc(mod, m.type, v[m.name], out, ch)
     if rt.ext and any(adds_present):
         put_normally_small_length(out, len(adds))
         for p in adds_present:
@@ -299,7 +304,7 @@ def enc_sequence(mod, rt, v, out):
         for m, p in zip(adds, adds_present):
             if p:
                 inner = Bits()
-                enc(mod, m.type, v[m.name], inner)
+                enc(mod, m.type, v[m.name], inner, ch)
                 open_type(out, inner)
 
 
@@ -314,7 +319,7 @@ def choice_order(mod, rt, members):
     return [m for _, m in keyed]
 
 
-def enc_choice(mod, rt, v, out):
+def enc_choice(mod, rt, v, out, ch=ref_ber.CANON):
     name, av = v
     root = choice_order(mod, rt, [m for m in rt.members if not m.ext])
     adds = [m for m in rt.members if m.ext]
@@ -323,15 +328,15 @@ def enc_choice(mod, rt, v, out):
         out.put(1 if sel.ext else 0, 1)
     if not sel.ext:
         put_constrained(out, [m.name for m in root].index(name), 0, len(root) - 1)
-        enc(mod, sel.type, av, out)
+        enc(mod, sel.type, av, out, ch)
     else:
         put_normally_small(out, [m.name for m in adds].index(name))
         inner = Bits()
-        enc(mod, sel.type, av, inner)
+        enc(mod, sel.type, av, inner, ch)
         open_type(out, inner)
 
 
-def encode(mod, t, v):
+def encode(mod, t, v, ch=ref_ber.CANON):
     out = Bits()
-    enc(mod, t, v, out)
+    enc(mod, t, v, out, ch)
     return out.to_bytes() or b"\x00"
